@@ -4,6 +4,8 @@ import Proofs.C05Rows
 import Proofs.C05Dispatch
 import Proofs.C05Value
 import Proofs.C05Seq
+import Proofs.C05Event
+import Proofs.C05ConnSetup
 /-!
 # C05 — no bytes from the network can crash the application
 
@@ -388,5 +390,116 @@ example : (run PArm.removes (init [(.query, [0]), (.query, [0])])
   decide
 
 end sequences
+
+/-! ## 7. frames on stream -1 under every Events configuration
+
+Model/EventFlow.lean: a session built by NewSession for ANY `ClusterConfig.Events` (what was registered does not
+bind the peer), fed ANY sequence of frames on stream -1 — events of every kind, well-formed frames that are no
+events, unparsable bodies — on any connection, during the handshake or later, in rounds (push, debounce timers
+expire, handleSchemaEvent / handleNodeEvent run, ring refresh). `Res.crash` is the nil dereference in
+`eventDebouncer.debounce` that handleEvent would reach through a session without that debouncer. Lemmas in
+Proofs/C05Event.lean; the machine is compared round by round (debouncer contents through the hook
+VerifC05fEventBuffers, log lines, calls of the host selection policy, schema-agreement and ring-refresh queries
+at the peer, state of the node and its pool) with a real Session in child processes (ops `evt`, `evtinv`). -/
+section events
+open EventFlow
+
+/-- FULL: for every Events configuration and EVERY scenario (frames pushed while OPTIONS / STARTUP / REGISTER of a
+    connection are outstanding, then any number of rounds of any frames on the control and pool connections),
+    the process does not die. -/
+theorem C05_events_total (cfg : EvCfg) (rs : List (List Step)) : (run cfg rs).isCrash = false :=
+  (C05Event.runWith_ok ctorAlways cfg rfl rfl rs).1
+
+/-- FULL: handleEvent from ANY session state in which both debouncers exist (not only the reachable ones), for any
+    frame: no crash, both still exist, and neither holds more than eventBufferSize frames if it did not before. -/
+theorem C05_events_step (s : Sess) (e : Ev) (h : C05Event.Inv s) :
+    ∃ s' lg, handleEvent s e = .ok s' lg ∧ C05Event.Inv s' ∧ (C05Event.BInv s → C05Event.BInv s') := by
+  obtain ⟨s', lg, h1, h2, h3, _, _⟩ := C05Event.handleEvent_ok s e h
+  exact ⟨s', lg, h1, h2, h3⟩
+
+/-- ALLOCATION: whatever arrives, at every observation point each debouncer holds at most eventBufferSize (1000)
+    frames (the rest is logged and dropped), for every configuration and scenario. -/
+theorem C05_events_buffer_bound (cfg : EvCfg) (rs : List (List Step)) : (run cfg rs).invOK = true :=
+  (C05Event.runWith_ok ctorAlways cfg rfl rfl rs).2
+
+/-- FULL (spec-backed op `evtinv`): the model's answer is `ok` for every scenario, so an implementation answer
+    `crash:..` or `bad:buffer-over` is a failing input. -/
+theorem C05_evtinv_ok (cfg : EvCfg) (rs : List (List Step)) : (run cfg rs).invStr = "ok" :=
+  C05Event.invStr_ok _ (C05_events_total cfg rs) (C05_events_buffer_bound cfg rs)
+
+/-- EXACTLY what the safety of handleEvent needs from NewSession: a way of building the session is crash-free
+    for every configuration and scenario IF AND ONLY IF it allocates both debouncers for every configuration
+    (session.go:164-165 does: `ctorAlways`). -/
+theorem C05_events_total_iff (ct : Ctor) :
+    (∀ cfg rs, (runWith ct cfg rs).isCrash = false) ↔ ∀ cfg, ct.node cfg = true ∧ ct.schema cfg = true := by
+  constructor
+  · intro h cfg
+    refine ⟨?_, ?_⟩
+    · cases hn : ct.node cfg with
+      | true => rfl
+      | false => have := h cfg [[], [⟨.ctl, C05Event.evStatus, 1⟩]]; rw [C05Event.no_node_deb_crashes ct cfg hn] at this; cases this
+    · cases hs : ct.schema cfg with
+      | true => rfl
+      | false => have := h cfg [[], [⟨.ctl, C05Event.evSchema, 1⟩]]; rw [C05Event.no_schema_deb_crashes ct cfg hs] at this; cases this
+  · intro h cfg rs
+    exact (C05Event.runWith_ok ct cfg (h cfg).1 (h cfg).2 rs).1
+
+/-- ... e.g. a NewSession that builds a debouncer only for the kinds the control connection registers for
+    (`ctorRegistered`): with DisableSchemaEvents one unsolicited SCHEMA_CHANGE on the control connection — or already
+    while the OPTIONS of the very first connection is outstanding — kills the process; with topology and status
+    events disabled one STATUS_CHANGE does. The state is representable, the invariant is not vacuous. -/
+theorem C05_events_registered_ctor_crashes :
+    runWith ctorRegistered ⟨false, false, true⟩ [[], [⟨.ctl, C05Event.evSchema, 1⟩]] = .crash 1 ∧
+    runWith ctorRegistered ⟨false, false, true⟩ [[⟨.hsOptions, C05Event.evSchema, 1⟩]] = .crash 0 ∧
+    runWith ctorRegistered ⟨true, true, false⟩ [[], [⟨.pool, C05Event.evStatus, 1⟩]] = .crash 1 := by
+  refine ⟨?_, ?_, ?_⟩ <;> decide
+
+/-- non-vacuity: the same frames on the session NewSession builds are debounced and handled
+    (KEYSPACE CREATED: one schema-agreement poll and policy.KeyspaceChanged; UP of an unknown host: ring refresh);
+    1005 frames: 1000 kept, 5 dropped -/
+example : (match run ⟨false, false, true⟩ [[], [⟨.ctl, C05Event.evSchema, 1⟩, ⟨.pool, C05Event.evStatus, 1⟩]] with
+    | .ok [_, o] => (o.nodeBuf, o.schemaBuf, o.fx.ag, o.fx.kcC, o.refresh, o.pool)
+    | _ => (0, 0, 0, 0, false, false)) = (1, 1, 1, 1, true, true) := by decide
+example : (match run ⟨false, false, false⟩ [[], [⟨.ctl, C05Event.evStatus, 1005⟩]] with
+    | .ok [_, o] => (o.nodeBuf, o.logs.dropped)
+    | _ => (0, 0)) = (1000, 5) := by decide +kernel
+example : run ⟨false, false, false⟩ [[⟨.hsStartup, C05Event.evSchema, 1⟩]] = .connectError := by decide
+
+end events
+
+/-! ## 8. connection set-up as a sequence of answers (handshake, then USE keyspace)
+
+Model/ConnSetup.lean: OPTIONS -> STARTUP -> AUTH_RESPONSE.. (`Dispatch.hsStep`) -> `USE "ks"` of a pool connection,
+every request answered with ANY of the 18 kinds; compared with a real session in child processes (op `hs`:
+the requests the peer saw, and whether the session came up). Lemmas in Proofs/C05ConnSetup.lean. -/
+section connsetup
+open ConnSetup
+
+/-- FULL: for every authenticator behaviour, with or without a session keyspace, and EVERY script of answers,
+    setting up the connection never panics (it runs on a driver goroutine: startupCoordinator / hostConnPool.fill). -/
+theorem C05_connsetup_total (cfg : Dispatch.AuthCfg) (useKs : Bool) (script : List Dispatch.FrameKind) :
+    (run cfg useKs script).1.isDead = false :=
+  C05ConnSetup.safe_not_dead Dispatch.dispatch _
+    (C05ConnSetup.drive_safe _ cfg useKs (fun k => C05Dispatch.C05_dispatch_total _ k)
+      (fun k => C05Dispatch.C05_dispatch_total _ k) (fun k => C05Dispatch.C05_dispatch_total _ k)
+      (Or.inr fun k => C05Dispatch.C05_dispatch_total _ k) (fun k => C05Dispatch.C05_dispatch_total _ k)
+      _ _ _ _ trivial)
+
+/-- FULL: ... and it always ENDS, with the connection up or an error to the caller: whatever the script, once the
+    peer answers like a server again the set-up is over within four requests (no state waits for ever). -/
+theorem C05_connsetup_ends (cfg : Dispatch.AuthCfg) (useKs : Bool) (script : List Dispatch.FrameKind) :
+    (run cfg useKs script).1 = .up ∨ (run cfg useKs script).1 = .failed :=
+  C05ConnSetup.settled_cases _
+    (C05ConnSetup.drive_running cfg useKs _ _ _ _ trivial)
+    (C05ConnSetup.drive_ends cfg useKs script 0 _ _ trivial)
+    (C05_connsetup_total cfg useKs script)
+
+/-- non-vacuity: PasswordAuthenticator, keyspace: AUTHENTICATE, AUTH_SUCCESS, then the USE answered with RESULT/Void
+    fails after four requests; answered by the server it comes up; an AUTH_CHALLENGE to the nil challenger fails -/
+example : run Dispatch.passwordAuth true [.supported, .authenticate, .authSuccess, .resultVoid] = (.failed, ["O", "S", "A", "Q"]) := by decide
+example : run Dispatch.passwordAuth true [.supported, .authenticate] = (.up, ["O", "S", "A", "Q"]) := by decide
+example : run Dispatch.passwordAuth false [.supported, .authenticate, .authChallenge] = (.failed, ["O", "S", "A"]) := by decide
+
+end connsetup
 
 end C05
